@@ -26,7 +26,7 @@ var c15 = core.Register(&core.Prop{
 	Shards: func(tier string) int { return pickTier(tier, 8, 16) },
 	Floors: func(c map[string]int64, tier string) []string {
 		var out []string
-		for _, k := range []string{"nodes_checked", "reparsed_nodes", "error_strings_checked", "linetable_offsets", "crlf_at_end_texts", "buffer_reuse_texts"} {
+		for _, k := range []string{"nodes_checked", "reparsed_nodes", "error_strings_checked", "linetable_offsets", "crlf_at_end_texts", "buffer_reuse_texts", "trees_rechecked_after_analysis"} {
 			if c[k] == 0 {
 				out = append(out, "coverage floor: no "+k)
 			}
@@ -238,6 +238,18 @@ var c15Ranges = core.Mon(c15, "ranges-and-reparse", func(w *core.W, c *ParseCase
 		if g, x := obs.CanonValues(sc2.Expression), obs.CanonValues(e); g != x {
 			w.Violation("ranges-and-reparse", "C15/reparse-differs", c, x, g, fmt.Sprintf("text of node %T [%d,%d) = %q re-parses to a different tree", e, e.Pos(), e.End(), clipS(string(sub), 100)))
 			return
+		}
+	}
+	// the tree keeps describing its text while the library's own read-only consumers walk it: after the two field
+	// analyses the root (whose text has just been re-parsed to this very tree) still is that tree
+	if len(c.Src) <= 8192 {
+		before := obs.CanonValues(sc.Expression)
+		core.Call(func() { formula.ResolveReferenceFields(sc) })
+		core.Call(func() { formula.ResolveReferenceFieldsNotLocal(sc) })
+		w.Count("trees_rechecked_after_analysis")
+		if after := obs.CanonValues(sc.Expression); after != before {
+			w.Violation("ranges-and-reparse", "C15/reparse-differs-after-analysis", c, clipS(before, 300), clipS(after, 300),
+				"after ResolveReferenceFields / ResolveReferenceFieldsNotLocal the tree is no longer what its own text parses to: "+c.Quoted())
 		}
 	}
 })
